@@ -1,12 +1,15 @@
 CONSTANTS
-  Procs = {1, 2, 3}
+  Procs = {1, 2}
   Kinds = {"out"}
   LKinds = {"key"}
   Cap <- MCCap1
-  Mode = "enforce"
+  Mode = "off"
   Lazy = TRUE
   MaxOps = 3
   MaxHeld = 1
+  OpSet = {"debit", "retain", "finish"}
+  Atomic = FALSE
+  GtBug = FALSE
 SPECIFICATION Spec
 INVARIANTS TypeOK AcceptedNeverExceedsCap ShadowNeverRejects ShadowRecordsCrossing OffCountsNothing RequiredRejectionLatches
   BestEffortDoesNotLatch LatchedIsExhausted RefsOK PublishOnce PublishedWhenQuiescent
